@@ -288,6 +288,7 @@ def mods():
         _STATE["sh"], _STATE["S"] = sh, S
         _STATE["real_slip39"] = sh.SLIP39
         _STATE["real_polymod"] = sh.rs1024_polymod
+        sh.Share.__repr__ = lambda self: "<share>"   # only used inside error messages (it would render the mnemonic of symbolic fields)
         _STATE["real_interpolate"] = S.__dict__["interpolate"]
         _STATE["real_recover_secret"] = S.__dict__["recover_secret"]
         _STATE["real_decrypt"] = S.__dict__["decrypt"]
